@@ -20,6 +20,7 @@ Differences of (b) in PendingCanceledProducers[k].<field> while another producer
 restored instance holds k with the uninterrupted run's value are one mechanism (the check point
 stores two copies of one shared *Producer) and are reported under the single key
 `C23:dpos-restore-diverges:PendingCanceledProducers-alias`, whatever the fields.
+The generated part (run_fields, `dposstate fields <n> <seed>`) complements this: see run_fields.
 The summary record lists under `never_populated` the check point fields that were zero /
 empty in every snapshot taken (not exercised, so not claimed).
 
@@ -95,15 +96,46 @@ def run_part(chk, binary, behs, prelude="basic", span=6, shards=4, label=None):
     return recs
 
 
+def run_fields(chk, binary, shards=4):
+    """The generated part (`dposstate fields`, harness/cmd/dposstate/fields.go): state.Arbiters / state.CheckPoint
+    objects populated field by field (every scalar distinct, every map / slice with >= 2 entries at every level, the
+    three ArbiterMember implementations), (a) Serialize -> Deserialize == original, (b) NewCheckpoint / Snapshot feed
+    every CheckPoint member from the Arbiters member of the same name and RecoverFromCheckPoints brings every
+    member back.  Members outside the check point are on the driver's exclusion list (recorded in the evidence)."""
+    import concurrent.futures
+    per = 75 if chk.tier == "thorough" else 20
+    with concurrent.futures.ThreadPoolExecutor(max_workers=shards) as ex:
+        futs = [ex.submit(vf.run_driver, binary, ["fields", str(per), str(vf.seed() * 16 + i)], None, 600) for i in range(shards)]
+        res = [f.result()[0] for f in futs]
+    excluded = sorted({x for shard in res for r in shard if r.get("kind") == "summary" for x in r.get("excluded", [])})
+    recs = vf.merge_summaries([r for shard in res for r in shard])
+    for r in recs:
+        if r.get("kind") == "summary":
+            r.pop("excluded", None)
+    chk.absorb(recs, "dpos check point, generated field by field")
+    chk.cov["dpos_fields_excluded"] = excluded
+    # binding self-test: a check point member fed from the wrong Arbiters member must be reported
+    bad, _ = vf.run_driver(binary, ["fields", "3", str(vf.seed()), "plant"], None, 600)
+    chk.selftest("dpos fields: NextCRCArbitersMap fed from CurrentCRCArbitersMap (planted by the driver)",
+                 any(r.get("kind") == "violation" and r.get("key") == "C23:dpos-snapshot-wrong-source:NextCRCArbitersMap" for r in bad))
+    return recs
+
+
 def run_all(chk):
-    """Everything for the DPoS part: build the driver, generate behaviours with TLC, run the checkpoint mode, absorb."""
+    """Everything for the DPoS part: build the driver, the generated field sweep, generate behaviours with TLC, run the
+    checkpoint mode, absorb."""
     binary = build()
-    out = []
+    out = run_fields(chk, binary)
     for prelude, behs in default_behaviours(chk):
         out += run_part(chk, binary, behs, prelude=prelude)
     chk.assumptions += [
         "C23 DPoS part: check points are taken with state.NewCheckpoint(arbiters).Serialize and restored with Deserialize + OnInit "
         "(RecoverFromCheckPoints) in memory; the file handling of core/checkpoint (channels, file names, periods) is not exercised; "
-        "fields listed under coverage.never_populated were zero in every snapshot and are not claimed",
+        "fields listed under coverage.never_populated were zero in every snapshot of the behaviour-driven part; the generated part "
+        "(dposstate fields) populates every member of state.Arbiters / state.CheckPoint by reflection (80 instances quick, 300 "
+        "thorough: all scalars distinct, >= 2 entries per map / slice at every level, origin / DPoS / CRC arbiter members) and checks "
+        "Serialize/Deserialize, NewCheckpoint / Snapshot member by member against the Arbiters member of the same name and "
+        "RecoverFromCheckPoints; the members it leaves out are listed with reasons under coverage.dpos_fields_excluded; interface{} "
+        "values of IllegalBlocksPayloadHashes are nil (only the keys are serialized)",
     ]
     return out
